@@ -29,7 +29,10 @@ pub fn def() -> CheckDef {
                encapsulated RLE/JPEG fragments), seed-drawn Affected SOP Instance UID text (plain, parent references, path \
                separators into an existing sub-directory, absolute paths, dot names, padded, long), data cut into one or many \
                fragments (empty fragments, an empty last fragment alone in its own PDU, several PDVs per PDU); by the seed the \
-               requestor gives up after a non-final PDU of a store and releases or aborts there. The seeded \
+               requestor gives up after a non-final PDU of a store and releases or aborts there; in a sixth of the runs the disk \
+               (interposed write() on files the node creates) accepts a seed-drawn number of bytes and then fails with \
+               ENOSPC/EIO once or persistently, or EINTR once, optionally after a short write: an unanswered store is then \
+               legitimate, an acknowledged one must still be complete on disk. The seeded \
                scheduler decides node interleaving, send sizes, delivery segmentation and receive sizes. Oracles: every path \
                the node asks the OS to create (interposed open) and every file found on the sandbox file system afterwards \
                lies directly inside the output directory; for every store acknowledged with success there is a file directly \
@@ -38,9 +41,9 @@ pub fn def() -> CheckDef {
                request's message id and instance UID; the node does not panic and returns. distinct = distinct hashed \
                scheduler event sequences; non-trivial = a non-default scheduling or segmentation decision fired",
         real: &["storescp: run_store_sync, run_store_async and their inner loops, App (clap) argument parsing", "ServerAssociation / AsyncServerAssociation establish, receive, send", "InMemDicomObject::read_dataset_with_ts, FileMetaTableBuilder, write_to_file (real file system in a per-worker sandbox)", "std and tokio TcpStream, mio, tokio current-thread runtime"],
-        stub: &["TCP/IP (simulated queues)", "the requestor (scripted, independent encoders)", "the listener accept loop of main() (each run hands one accepted connection to the per-connection body)", "open() is observed (and refused below an unreachable prefix) but otherwise real"],
+        stub: &["TCP/IP (simulated queues)", "the requestor (scripted, independent encoders)", "the listener accept loop of main() (each run hands one accepted connection to the per-connection body)", "open() is observed (and refused below an unreachable prefix) but otherwise real", "the disk: real tmpfs, with write() on files the node creates failing by the seed (simdisk)"],
         assumptions: &["the harness links the tool sources with transfer-syntax-registry features deflate+native; the shipped default build registers fewer supported syntaxes", "command sets are sent in one fragment (the tool ignores split command fragments; the property quantifies over data fragments)", "no connection faults here (C30/C34 carry those)"],
-        required_probes: &["stored-ok", "uid-parent-ref", "uid-subdir", "uid-absolute", "uid-unreachable-absolute", "empty-last-fragment-own-pdu", "many-fragments", "ts-deflated", "ts-encapsulated", "ts-big-endian", "ts-implicit", "echo-interleaved", "several-pdvs-per-pdu", "release-answered", "aborted-by-peer", "release-mid-dataset", "abort-mid-dataset"],
+        required_probes: &["stored-ok", "uid-parent-ref", "uid-subdir", "uid-absolute", "uid-unreachable-absolute", "empty-last-fragment-own-pdu", "many-fragments", "ts-deflated", "ts-encapsulated", "ts-big-endian", "ts-implicit", "echo-interleaved", "several-pdvs-per-pdu", "release-answered", "aborted-by-peer", "release-mid-dataset", "abort-mid-dataset", "disk-write-failed", "disk-eintr", "disk-short-write"],
         net: true,
     }
 }
@@ -278,8 +281,21 @@ fn run(cfgi: usize, w: &mut Tape, env: &EnvRef) -> RunResult {
         })
     });
 
+    // by the seed the disk under the output directory fails: it accepts a seed-drawn number of bytes and then
+    // returns ENOSPC / EIO (once or persistently, optionally after a short write), or EINTR once (transient)
+    let disk_plan: Option<crate::simdisk::Plan> = if w.chance(1, 6) {
+        let total: usize = planned.iter().map(|c| c.first().map(|s| s.data.len() + 400).unwrap_or(0)).sum();
+        let errno = [libc::ENOSPC, libc::EIO, libc::EINTR][w.below(3) as usize];
+        Some(crate::simdisk::Plan { fail_at: w.below(total as u32 + 64) as u64, errno, short: w.chance(1, 2), persistent: errno != libc::EINTR && w.chance(1, 2) })
+    } else {
+        None
+    };
+    env.with(|e| e.obs.note_with(|| format!("disk plan {:?}", disk_plan)));
     simnet::begin(env, w.below(1 << 30) as u64);
     simnet::with_net(|n| n.escape_prefix = ESCAPE.to_string());
+    if let Some(p) = &disk_plan {
+        crate::simdisk::arm(p.clone());
+    }
     let conn = simnet::connection(None);
     let res = shared(ReqResult::default());
     let tool_res: Shared<Option<Result<(), String>>> = shared(None);
@@ -446,6 +462,17 @@ fn run(cfgi: usize, w: &mut Tape, env: &EnvRef) -> RunResult {
 
     let rep = simnet::run(120_000);
     let end = simnet::end();
+    let disk = crate::simdisk::disarm();
+    // a hard disk failure was reported to the tool (EINTR is retried by std and is no failure)
+    let disk_failed = disk.fired > 0 && disk_plan.as_ref().map(|p| p.errno != libc::EINTR).unwrap_or(false);
+    if disk_failed {
+        env.probe("disk-write-failed");
+    } else if disk.fired > 0 {
+        env.probe("disk-eintr");
+    }
+    if disk.short_writes > 0 {
+        env.probe("disk-short-write");
+    }
     if end.needs_restart {
         simnet::request_restart();
     }
@@ -500,8 +527,9 @@ fn run(cfgi: usize, w: &mut Tape, env: &EnvRef) -> RunResult {
             None => {
                 // a complete, valid request on an accepted context was sent (the requestor only stops sending on a
                 // send error): the tool must store it and answer, unless the file name cannot exist
+                // (after a reported disk failure the tool may give up the association instead)
                 check!(
-                    !name_fits,
+                    !name_fits || disk_failed,
                     "stores-what-it-receives",
                     format!("c32:{}:store-not-answered", who),
                     "a complete C-STORE request (context {}, {}, affected instance {:?}, {} data bytes) was never answered: {}",
@@ -523,7 +551,14 @@ fn run(cfgi: usize, w: &mut Tape, env: &EnvRef) -> RunResult {
             echoed_inst.as_ref().map(|b| String::from_utf8_lossy(b).to_string()),
             String::from_utf8_lossy(&st.affected_instance)
         );
-        check!(status == 0, "stores-what-it-receives", format!("c32:{}:store-refused", who), "a valid C-STORE request was answered with status {:04X}H", status);
+        check!(status == 0 || disk_failed, "stores-what-it-receives", format!("c32:{}:store-refused", who), "a valid C-STORE request was answered with status {:04X}H", status);
+        if status != 0 {
+            continue;
+        }
+        if disk_failed {
+            // the decisive case: success acknowledged in a session whose disk failed - the file must be complete all the same
+            env.probe("acknowledged-despite-disk-failure");
+        }
         env.probe("stored-ok");
         // a later store with the same affected instance UID text may overwrite this one
         let overwritten = r.stores.iter().enumerate().any(|(j, o)| j > k && o.affected_instance == st.affected_instance && matches!(r.responses[j], Some((0, _, _))));
